@@ -8,15 +8,13 @@ use crate::common::*;
 use crate::sched::{self, Guarded};
 use serde_json::json;
 use similari::prelude::*;
-use similari::trackers::batch::{PredictionBatchRequest, PredictionBatchResult};
-use similari::trackers::sort::batch_api::BatchSort as BSortT;
-use similari::trackers::visual_sort::batch_api::BatchVisualSort;
+use similari::trackers::batch::PredictionBatchResult;
 use std::collections::{BTreeMap, BTreeSet};
 use std::sync::{Arc, Mutex};
 
-type Batch = Vec<(u64, Vec<Det>)>;
+pub type Batch = Vec<(u64, Vec<Det>)>;
 
-fn batches(variant: usize) -> Vec<Batch> {
+pub fn batches(variant: usize) -> Vec<Batch> {
     let a = p().feat(&fa(), 0.9);
     let b = q().feat(&fb(), 0.9);
     match variant {
@@ -26,52 +24,33 @@ fn batches(variant: usize) -> Vec<Batch> {
         1 => vec![vec![(0, vec![a.clone()]), (1, vec![b.clone()])], vec![(1, vec![b.shift(1.0, 0.0)])], vec![(0, vec![p1()]), (1, vec![b.shift(2.0, 0.0)])]],
         // one batch, two scenes that each start a track (fine tier)
         3 => vec![vec![(0, vec![a.clone()]), (1, vec![b.clone()])], vec![(0, vec![p1().feat(&fa1(), 0.8)]), (1, vec![b.shift(1.0, 0.0)])]],
+        // A / B / A: a scene, then a batch of foreign scenes only, then the first scene again (pipelined
+        // use: the first batch may still be voting when the third one is prepared)
+        4 => vec![vec![(0, vec![a.clone()]), (1, vec![b.clone()]), (2, vec![a.clone()])], vec![(5, vec![b.clone()])], vec![(0, vec![p1().feat(&fa1(), 0.8)])]],
         // three scenes
         _ => vec![vec![(0, vec![a.clone()]), (1, vec![a.clone()]), (2, vec![b.clone()])], vec![(0, vec![p1()]), (2, vec![b.shift(1.0, 1.0)]), (1, vec![p1().shift(0.5, 0.0)])]],
     }
 }
 
-enum Bt {
-    S(BSortT),
-    V(BatchVisualSort),
-}
-
-impl Bt {
-    fn new(c: &TrkCfg) -> Bt {
-        match AnyTrk::new(c) {
-            AnyTrk::BSort(t) => Bt::S(t),
-            AnyTrk::BVSort(t) => Bt::V(t),
-            _ => unreachable!(),
-        }
-    }
-    fn submit(&mut self, b: &Batch) -> PredictionBatchResult {
-        match self {
-            Bt::S(t) => {
-                let (mut req, res) = PredictionBatchRequest::<(Universal2DBox, Option<i64>)>::new();
-                for (s, ds) in b {
-                    for d in ds {
-                        req.add(*s, (d.bbox.clone(), d.custom_id));
-                    }
-                }
-                t.predict(req);
-                res
-            }
-            Bt::V(t) => {
-                let (mut req, res) = PredictionBatchRequest::<VisualSortObservation>::new();
-                for (s, ds) in b {
-                    for d in ds {
-                        req.add(*s, VisualSortObservation::new(d.feature.as_deref(), d.quality, d.bbox.clone(), d.custom_id));
-                    }
-                }
-                t.predict(req);
-                res
-            }
-        }
-    }
-}
-
 /// per batch: the results in arrival order
-type Obs = Vec<Vec<(u64, Vec<Rec>)>>;
+pub type Obs = Vec<Vec<(u64, Vec<Rec>)>>;
+
+/// what the tracker reports once every result was retrieved (still inside the explored window)
+#[derive(Clone, Debug, Default, PartialEq, Eq, Hash)]
+pub struct Final {
+    /// scene -> current epoch
+    pub epochs: BTreeMap<u64, usize>,
+    /// scene -> idle tracks (id, last epoch, length)
+    pub idle: BTreeMap<u64, Vec<(u64, usize, usize)>>,
+    /// expired tracks handed out by wasted(): (id, scene, last epoch, length)
+    pub wasted: Vec<(u64, u64, usize, usize)>,
+}
+
+#[derive(Clone, Debug, Default, PartialEq, Eq, Hash)]
+pub struct RunOut {
+    pub obs: Obs,
+    pub fin: Final,
+}
 
 fn drain(res: &PredictionBatchResult) -> Vec<(u64, Vec<Rec>)> {
     let out: Vec<(u64, Vec<Rec>)> = (0..res.batch_size()).map(|_| res.get()).map(|(s, v)| (s, v.iter().map(Rec::from).collect())).collect();
@@ -80,15 +59,15 @@ fn drain(res: &PredictionBatchResult) -> Vec<(u64, Vec<Rec>)> {
     out
 }
 
-fn run(cfg: &TrkCfg, bs: &[Batch], discipline: usize) -> Obs {
-    let mut t = Guarded::new(Bt::new(cfg));
+pub fn run(cfg: &TrkCfg, bs: &[Batch], discipline: usize) -> RunOut {
+    let mut t = Guarded::new(AnyTrk::new(cfg));
     sched::set_phase(1);
     let mut out: Obs = vec![];
     match discipline {
         // same thread retrieves everything before the next submission
         0 => {
             for b in bs {
-                let res = t.submit(b);
+                let res = t.submit_batch(b);
                 out.push(drain(&res));
             }
         }
@@ -96,7 +75,7 @@ fn run(cfg: &TrkCfg, bs: &[Batch], discipline: usize) -> Obs {
         1 => {
             let mut handles = vec![];
             for b in bs {
-                let res = t.submit(b);
+                let res = t.submit_batch(b);
                 handles.push(shuttle::thread::spawn(move || drain(&res)));
             }
             for h in handles {
@@ -107,25 +86,39 @@ fn run(cfg: &TrkCfg, bs: &[Batch], discipline: usize) -> Obs {
         _ => {
             let mut results = vec![];
             for b in bs {
-                results.push(t.submit(b));
+                results.push(t.submit_batch(b));
             }
             for r in &results {
                 out.push(drain(r));
             }
         }
     }
+    // every result was retrieved: the tracker's own view of its tracks, still inside the window
+    let mut fin = Final::default();
+    let scenes: BTreeSet<u64> = bs.iter().flat_map(|b| b.iter().map(|x| x.0)).collect();
+    for s in &scenes {
+        fin.epochs.insert(*s, t.epoch(*s));
+        fin.idle.insert(*s, t.idle(*s).iter().map(|r| (r.id, r.epoch, r.length)).collect());
+    }
+    fin.wasted = t.wasted().iter().map(|w| (w.id, w.scene, w.epoch, w.length)).collect();
     sched::set_phase(2);
     drop(t);
-    out
+    RunOut { obs: out, fin }
 }
 
-fn simple_reference(cfg: &TrkCfg, bs: &[Batch]) -> BTreeMap<u64, Vec<Vec<Rec>>> {
+pub struct Reference {
+    pub recs: BTreeMap<u64, Vec<Vec<Rec>>>,
+    pub fin: Final,
+}
+
+pub fn simple_reference(cfg: &TrkCfg, bs: &[Batch]) -> Reference {
     let mut c = cfg.clone();
     c.kind = if cfg.kind == Kind::BatchSort { Kind::Sort } else { Kind::VisualSort };
     c.shards = 1;
     let bs = bs.to_vec();
     sched::in_shuttle(move || {
         let mut out: BTreeMap<u64, Vec<Vec<Rec>>> = BTreeMap::new();
+        let mut fin = Final::default();
         let scenes: BTreeSet<u64> = bs.iter().flat_map(|b| b.iter().map(|x| x.0)).collect();
         for s in scenes {
             let mut t = Guarded::new(AnyTrk::new(&c));
@@ -136,13 +129,17 @@ fn simple_reference(cfg: &TrkCfg, bs: &[Batch]) -> BTreeMap<u64, Vec<Vec<Rec>>> 
                     }
                 }
             }
+            fin.epochs.insert(s, t.epoch(s));
+            fin.idle.insert(s, t.idle(s).iter().map(|r| (r.id, r.epoch, r.length)).collect());
+            fin.wasted.extend(t.wasted().iter().map(|w| (w.id, w.scene, w.epoch, w.length)));
         }
-        out
+        Reference { recs: out, fin }
     })
     .unwrap_or_else(|e| machinery_error(&format!("C06 reference run failed: {e}")))
 }
 
-fn judge(o: &Obs, bs: &[Batch], reference: &BTreeMap<u64, Vec<Vec<Rec>>>) -> Result<(), (String, String)> {
+pub fn judge(ro: &RunOut, bs: &[Batch], reference: &Reference) -> Result<(), (String, String)> {
+    let o = &ro.obs;
     if o.len() != bs.len() {
         return Err(("batch/result-sets".into(), format!("{} result sets for {} batches", o.len(), bs.len())));
     }
@@ -168,7 +165,7 @@ fn judge(o: &Obs, bs: &[Batch], reference: &BTreeMap<u64, Vec<Vec<Rec>>>) -> Res
         }
     }
     for (s, seq) in &per_scene {
-        let exp = reference.get(s).cloned().unwrap_or_default();
+        let exp = reference.recs.get(s).cloned().unwrap_or_default();
         if exp.len() != seq.len() {
             return Err(("batch/scene-call-count".into(), format!("scene {s}")));
         }
@@ -177,6 +174,30 @@ fn judge(o: &Obs, bs: &[Batch], reference: &BTreeMap<u64, Vec<Vec<Rec>>>) -> Res
             if let Err(e) = same_records(a, b, &mut m, &mut rm, false) {
                 return Err(("batch/differs-from-simple-tracker".into(), format!("scene {s}, its call #{k}: {e}")));
             }
+        }
+        // what the tracker itself says afterwards: epoch, idle tracks and expired tracks of the scene are
+        // those of the simple tracker, under the same renaming of ids
+        if ro.fin.epochs.get(s) != reference.fin.epochs.get(s) {
+            return Err(("batch/final-epoch".into(), format!("scene {s}: epoch {:?}, simple tracker {:?}", ro.fin.epochs.get(s), reference.fin.epochs.get(s))));
+        }
+        let ren = |v: &Vec<(u64, usize, usize)>| -> Vec<(Option<u64>, usize, usize)> {
+            let mut w: Vec<_> = v.iter().map(|x| (m.get(&x.0).cloned(), x.1, x.2)).collect();
+            w.sort();
+            w
+        };
+        let same = |v: &Vec<(u64, usize, usize)>| -> Vec<(Option<u64>, usize, usize)> {
+            let mut w: Vec<_> = v.iter().map(|x| (Some(x.0), x.1, x.2)).collect();
+            w.sort();
+            w
+        };
+        let (gi, ei) = (ren(ro.fin.idle.get(s).unwrap_or(&vec![])), same(reference.fin.idle.get(s).unwrap_or(&vec![])));
+        if gi != ei {
+            return Err(("batch/final-idle-tracks".into(), format!("scene {s}: idle tracks (renamed id, last epoch, length) {gi:?}, simple tracker {ei:?}")));
+        }
+        let gw = ren(&ro.fin.wasted.iter().filter(|w| w.1 == *s).map(|w| (w.0, w.2, w.3)).collect());
+        let ew = same(&reference.fin.wasted.iter().filter(|w| w.1 == *s).map(|w| (w.0, w.2, w.3)).collect());
+        if gw != ew {
+            return Err(("batch/final-expired-tracks".into(), format!("scene {s}: expired tracks (renamed id, last epoch, length) {gw:?}, simple tracker {ew:?}")));
         }
     }
     // ids are never shared between scenes
@@ -191,6 +212,83 @@ fn judge(o: &Obs, bs: &[Batch], reference: &BTreeMap<u64, Vec<Vec<Rec>>>) -> Res
         }
     }
     Ok(())
+}
+
+/// Shared by C01 / C03 / C04: explore the schedules of one batch-tracker scenario (bounds iterated 0, 1, ..
+/// inside `slice` seconds; fine = every synchronisation operation is a decision point) and hand every
+/// completed execution to `judge`; panics, deadlocks and step-cap hits are violations `<prefix>/...`.
+#[allow(clippy::too_many_arguments)]
+pub fn explore_batch(rep: &Report, prefix: &str, cfg: &TrkCfg, variant: usize, discipline: usize, fine: bool, max_bound: usize, slice: f64, judge: &(dyn Fn(&RunOut) -> Result<(), (String, String)> + Sync)) -> serde_json::Value {
+    let bs = batches(variant);
+    let slice_end = std::time::Instant::now() + std::time::Duration::from_secs_f64(slice);
+    let scj = json!({"config":cfg.json(),"batches_variant":variant,"discipline":(if discipline == 0 { "retrieve-then-submit" } else { "consumer-thread" }),"granularity":(if fine { json!("fine") } else { json!(null) })});
+    let mut per_bound = vec![];
+    let mut completed: Option<usize> = None;
+    let outcomes: Mutex<BTreeSet<u64>> = Mutex::new(BTreeSet::new());
+    for bound in 0..=max_bound {
+        if std::time::Instant::now() >= slice_end {
+            break;
+        }
+        let ecfg = sched::ExploreCfg { mode: if fine { sched::Mode::Fine } else { sched::Mode::Macro }, window: (1, 2), bound, max_steps: 200_000, deadline: Some(slice_end), count_all_deviations: true, ..Default::default() };
+        let (c2, b2) = (cfg.clone(), bs.clone());
+        let stats = sched::explore(&ecfg, move || run(&c2, &b2, discipline), |x| {
+            let viol = |key: String, what: String| rep.violation(Violation { key, what, replay: json!({"scenario":scj,"schedule":x.schedule_json()}) });
+            match &x.outcome {
+                sched::Outcome::Done(o) => {
+                    outcomes.lock().unwrap().insert(hash_of(&o.obs.iter().map(|b| b.iter().map(|r| r.0).collect::<Vec<_>>()).collect::<Vec<_>>()));
+                    if let Err((key, what)) = judge(o) {
+                        viol(key, what);
+                    }
+                }
+                sched::Outcome::Machinery(m) => machinery_error(m),
+                sched::Outcome::Deadlock(m) => viol(format!("{prefix}/deadlock"), m.chars().take(300).collect()),
+                sched::Outcome::StepCap(m) => viol(format!("{prefix}/step-cap"), m.chars().take(300).collect()),
+                sched::Outcome::Panic(m) => viol(format!("{prefix}/panic"), m.chars().take(300).collect()),
+            }
+        });
+        rep.add(stats.executions, stats.decision_points, stats.executions, 0);
+        per_bound.push(json!({"bound":bound,"schedules":stats.executions,"max_decision_points":stats.max_points,"complete":!stats.truncated}));
+        if stats.truncated {
+            rep.cap_hit(&format!("{prefix} {} d{}v{} batches {variant} discipline {discipline}{}: deviation bound {bound} not completed within {slice:.0}s", cfg.kind.name(), cfg.shards, cfg.voting_shards, if fine { " fine" } else { "" }));
+            break;
+        }
+        completed = Some(bound);
+    }
+    json!({"scenario":scj,"bound_kind":"departures from the deterministic default schedule","bounds":per_bound,"largest_bound_completed":completed,"distinct_result_arrival_orders":outcomes.lock().unwrap().len()})
+}
+
+/// replay of a schedule recorded by `explore_batch`
+pub fn replay_batch(file: &serde_json::Value, prop: &str, judge: &dyn Fn(&RunOut, &TrkCfg, usize) -> Result<(), (String, String)>) -> i32 {
+    let r = &file["replay"];
+    let sc = &r["scenario"];
+    let Some(cfg) = TrkCfg::from_json(&sc["config"]) else { machinery_error("replay file: cannot parse the tracker configuration") };
+    let variant = sc["batches_variant"].as_u64().unwrap_or(0) as usize;
+    let discipline = if sc["discipline"].as_str() == Some("consumer-thread") { 1 } else { 0 };
+    let choices: Vec<usize> = r["schedule"]["choices"].as_array().map(|a| a.iter().map(|x| x.as_u64().unwrap_or(0) as usize).collect()).unwrap_or_default();
+    let bs = batches(variant);
+    let fine = sc["granularity"].is_string();
+    let ecfg = sched::ExploreCfg { mode: if fine { sched::Mode::Fine } else { sched::Mode::Macro }, window: (1, 2), max_steps: 200_000, ..Default::default() };
+    let (c2, b2) = (cfg.clone(), bs.clone());
+    let f = Arc::new(move || run(&c2, &b2, discipline));
+    let x = sched::run_one(&ecfg, &choices, &f);
+    println!("scenario {sc}\nschedule {}", x.schedule_json());
+    match &x.outcome {
+        sched::Outcome::Done(o) => match judge(o, &cfg, variant) {
+            Ok(()) => {
+                println!("the recorded schedule no longer violates the property");
+                0
+            }
+            Err((k, w)) => {
+                println!("VIOLATION property={prop} replay=(replayed) {k}: {w}");
+                1
+            }
+        },
+        sched::Outcome::Machinery(m) => machinery_error(&format!("the recorded schedule does not fit the current code: {m}")),
+        o => {
+            println!("VIOLATION property={prop} replay=(replayed) {}", format!("{o:?}").chars().take(300).collect::<String>());
+            1
+        }
+    }
 }
 
 pub fn run_check(tier: Tier) -> Report {
@@ -213,6 +311,11 @@ pub fn run_check(tier: Tier) -> Report {
                     }
                 }
             }
+        }
+    }
+    for kind in [Kind::BatchSort, Kind::BatchVisualSort] {
+        for &(ds, vs) in &[(1usize, 1usize), (1, 2)] {
+            scenarios.push((kind, ds, vs, 4, 1, Pos::Iou(0.3)));
         }
     }
     // fine tier: every synchronisation operation is a decision point (the macro-step tiers below
@@ -290,7 +393,7 @@ pub fn run_check(tier: Tier) -> Report {
             let stats = sched::explore(&ecfg, move || run(&c2, &b2, discipline), |x| match &x.outcome {
                 sched::Outcome::Done(o) => {
                     // arrival orders of results = vacuity guard
-                    outcomes.lock().unwrap().insert(hash_of(&o.iter().map(|b| b.iter().map(|r| r.0).collect::<Vec<_>>()).collect::<Vec<_>>()));
+                    outcomes.lock().unwrap().insert(hash_of(&o.obs.iter().map(|b| b.iter().map(|r| r.0).collect::<Vec<_>>()).collect::<Vec<_>>()));
                     if let Err((key, what)) = judge(o, &bs, &reference) {
                         rep.violation(Violation { key, what, replay: json!({"scenario":scj,"schedule":x.schedule_json()}) });
                     }
@@ -338,7 +441,10 @@ pub fn run_check(tier: Tier) -> Report {
     let dl = *deadlocks.lock().unwrap();
     rep.extra("proviso_violation_demo", json!({"schedules":stats.executions,"deadlocks":dl,"completed":*others.lock().unwrap(),"note":"submitting the next batch before retrieving a two-scene batch on the same thread deadlocks, as the statement's proviso predicts; reported as a demo, not as a violation"}));
     if dl == 0 {
-        machinery_error("C06: the deadlock detector did not fire on the discipline that violates the proviso");
+        // not a verdict either way: the statement only promises freedom from deadlock *under* the proviso.
+        // (It used to be a machinery error; a tree whose batch monitor is released early made the whole
+        // check end without a verdict instead of reporting the divergence the scenarios above find.)
+        rep.cap_hit("proviso-violation demo: no schedule of the violating discipline deadlocked on this tree (the deadlock detector was not demonstrated by this run)");
     }
     rep.add(stats.executions, stats.decision_points, stats.executions, 0);
     rep.distinct_count(total);
